@@ -67,6 +67,13 @@ def cases(rng, tier):
 			for c, d in ((a, b), (a, (b + 1) % 12), ((a + 1) % 4, b), (1, 1), (1, 0)):
 				for fmt in (b'HTTP/%d.%d', b'HTTP/0%d.0%d', b'HTTP/%d.00%d'):
 					yield ('cmpt', a, b, fmt % (c, d), rng.choice((0, 1)))
+	# a version handed from one message to another stays a value of its own (message.protocol = other.protocol / ServerProtocol)
+	for a in range(0, 4):
+		for b in (0, 1, 9, 11):
+			yield ('handover', a, b, (a + 1) % 4, (b + 3) % 12)
+	# versions handed over as text with characters outside ASCII: never a version (nothing is dropped or folded to make it one)
+	for t in (u'HTTP/1.1\xe9', u'\u200bHTTP/1.0', u'HTTP/1\u0660.1', u'HTTP/\uff11.1', u'H\u0422TP/1.1', u'HTTP/1.1\xa0', u'HTTP\u2215' + u'1.1', u'HTTP/1\u20241', u'HTTP/1.1', u'HTTP/01.10', u'http/1.1'):
+		yield ('ptext', t)
 	# methods handed over as text
 	for t in (u'GET', u'get', u'M-SEARCH', u'G\xc9T', u'\u20ac', u'G T', u'GE\u0301T', u'POST\xa0', u'\xb5', u'PATCH', u'A?B', u'X_Y.Z$'):
 		yield ('mtext', t)
@@ -148,6 +155,8 @@ def model_lines(case):
 		import re
 		m = re.match(rb'^HTTP/(\d+)\.(\d+)$', case[3])
 		return ['sl.cmp %d %d %d %d' % (case[1], case[2], int(m.group(1)), int(m.group(2)))]
+	if k in ('handover', 'ptext'):
+		return None
 	if k == 'mtext':
 		try:
 			return ['sl.method %s' % hx(case[1].encode('ascii'))]
@@ -265,6 +274,11 @@ def impl_lines(case):
 		return [guarded(f)]
 
 
+def setp(req, t):
+	req.protocol = t
+	return req
+
+
 def setm(req, t):
 	req.method = t
 	return req
@@ -327,6 +341,53 @@ def oracle(case):
 		want = ((a, b) < (c, d), (a, b) == (c, d), (a, b) > (c, d), (a, b) <= (c, d), (a, b) >= (c, d), (a, b) != (c, d))
 		if got != want:
 			return {'what': 'Protocol((%d, %d)) against the text %r: <, ==, >, <=, >=, != give %r, the numbers give %r' % (a, b, y, got, want), 'finding': None}
+		return None
+	if case[0] == 'handover':
+		from httoop.messages import Request, Response
+		from httoop.messages.protocol import Protocol
+		_, a, b, c, d = case
+		text = b'HTTP/%d.%d' % (a, b)
+		try:
+			req = Request()
+			req.parse(b'GET / ' + text)
+			resp = Response()
+			resp.protocol = req.protocol
+			first = bytes(resp.protocol)
+			resp.parse(b'HTTP/%d.%d 200 OK' % (c, d))
+			if first != text or bytes(req.protocol) != text or bytes(req) != b'GET / ' + text + b'\r\n' or bytes(resp.protocol) != b'HTTP/%d.%d' % (c, d):
+				return {'what': 'a response was given the version of a request (%r) and then read its own status line (HTTP/%d.%d): the request now composes %r, the response %r' % (text, c, d, bytes(req), bytes(resp.protocol)), 'finding': None}
+			import httoop
+			sp = getattr(httoop, 'ServerProtocol', None)
+			if sp is not None:
+				before = bytes(sp)
+				up = Response()
+				up.protocol = sp
+				up.parse(b'HTTP/%d.%d 200 OK' % (c, d))
+				if bytes(sp) != before:
+					return {'what': 'a message was given the server\'s version and then read HTTP/%d.%d: the server now speaks %r (before %r)' % (c, d, bytes(sp), before), 'finding': None}
+		except Exception as e:
+			return {'what': 'handing a version from one message to another raised %s: %s' % (exc_name(e), e), 'finding': None}
+		return None
+	if case[0] == 'ptext':
+		from httoop.messages.protocol import Protocol
+		from httoop.messages import Request
+		t = case[1]
+		ascii_ok = all(ord(ch) < 0x80 for ch in t)
+		for how, f in (('Protocol(text)', lambda: bytes(Protocol(t))), ('request.protocol = text', lambda: bytes(setp(Request(), t).protocol))):
+			try:
+				r = f()
+			except Exception as e:
+				if exc_name(e) in ('InvalidLine', 'TypeError', 'ValueError', 'UnicodeEncodeError'):
+					continue
+				return {'what': '%s for %r raised %s' % (how, t, exc_name(e)), 'finding': None}
+			if not ascii_ok:
+				return {'what': '%s accepts %r (not ASCII) as the version %r' % (how, t, r), 'finding': None}
+		if not ascii_ok:
+			try:
+				if Protocol((1, 1)) == t or Protocol((1, 0)) == t:
+					return {'what': 'a version compares equal to the text %r (not ASCII)' % (t,), 'finding': None}
+			except Exception:
+				pass
 		return None
 	if case[0] == 'mtext':
 		from httoop.messages.method import Method
@@ -528,7 +589,7 @@ def undescribe(d):
 		return (k, tuple(tuple(v) for v in d[1]))
 	if k == 'cmpt':
 		return (k, d[1], d[2], bytes.fromhex(d[3]), d[4])
-	if k == 'mtext':
+	if k in ('mtext', 'ptext'):
 		return (k, d[1])
 	return tuple(d)
 
